@@ -15,14 +15,18 @@ Import ListNotations.
 From DDP Require Import Gen.Tokens Gen.AliasArgs Alias.OMap Alias.Trie Alias.TokKey.
 Local Open Scope nat_scope.
 
-(* ---- types as ddptypes.Equal / UnifyGenericType see them (generic structs are out of scope) ---- *)
-Inductive ty := TBase (id : N) | TList (e : ty) | TGen (name : N).
+(* ---- types as ddptypes.Equal / UnifyGenericType see them. TInst id a: the instantiation of the
+   generic Kombination id (ONE type parameter, which occurs in a field) with a - "a-Vektor2";
+   a may be a type parameter inside a generic declaration ("T-Vektor2"). Instantiations are
+   canonical (GetInstantiatedStructType), so equality is structural. ---- *)
+Inductive ty := TBase (id : N) | TList (e : ty) | TGen (name : N) | TInst (id : N) (arg : ty).
 
 Fixpoint ty_eqb (a b : ty) : bool :=
   match a, b with
   | TBase x, TBase y => N.eqb x y
   | TList x, TList y => ty_eqb x y
   | TGen x, TGen y => N.eqb x y
+  | TInst i x, TInst j y => N.eqb i j && ty_eqb x y
   | _, _ => false
   end.
 
@@ -40,14 +44,31 @@ Definition unify_name (n : N) (inst : ty) (e : genv) : ty * genv :=
   | None => (inst, (n, inst) :: e)
   end.
 
-(* UnifyGenericType(argType, paramType, genericTypes) without generic structs:
+(* the struct branch of UnifyGenericType: the parameter is an instantiated generic Kombination;
+   the argument must be one too; their type arguments are compared position by position (a type
+   parameter is bound/read first); the result is the parameter's Kombination instantiated with
+   the argument's type argument *)
+Definition unify_inst (pid : N) (pa : ty) (arg : ty) (e : genv) : option ty * genv :=
+  match arg with
+  | TInst _ aa =>
+    match pa with
+    | TGen n => let '(t, e') := unify_name n aa e in
+                if ty_eqb t aa then (Some (TInst pid aa), e') else (None, e')
+    | _ => if ty_eqb pa aa then (Some (TInst pid aa), e) else (None, e)
+    end
+  | _ => (None, e)
+  end.
+
+(* UnifyGenericType(argType, paramType, genericTypes):
    strip list layers while both are lists (stop below a layer whose parameter element is a type
    parameter); a parameter that is still a list when the argument is not -> nil (None); a type
-   parameter is bound/read; the stripped layers are put back. *)
+   parameter is bound/read; an instantiated generic Kombination is unified by unify_inst; the
+   stripped layers are put back. *)
 Fixpoint unify (arg par : ty) (e : genv) : option ty * genv :=
   match par with
   | TBase _ => (Some par, e)
   | TGen n => let '(t, e') := unify_name n arg e in (Some t, e')
+  | TInst pid pa => unify_inst pid pa arg e
   | TList pe =>
     match arg with
     | TList ae =>
@@ -79,8 +100,15 @@ Definition is_placeholder (t : tok) : bool := N.eqb (tt t) tt_ALIAS_PARAMETER.
 Definition is_tgen (t : ty) : bool := match t with TGen _ => true | _ => false end.
 (* GetNestedListElementType *)
 Fixpoint nested_elem (t : ty) : ty := match t with TList e => nested_elem e | _ => t end.
-(* CastDeeplyNestedGenerics (without generic structs): the innermost element type is a type parameter *)
-Definition deep_generic (t : ty) : bool := is_tgen (nested_elem t).
+(* CastDeeplyNestedGenerics: below any list nesting, a type parameter, or a Kombination one of whose
+   field types (here: its type argument) contains a type parameter *)
+Fixpoint deep_generic (t : ty) : bool :=
+  match t with
+  | TBase _ => false
+  | TGen _ => true
+  | TList e => deep_generic e
+  | TInst _ a => deep_generic a
+  end.
 Definition alias_len (a : alias) : nat := length (a_toks a).
 (* sortAliases since 3e80d99: a parameter counts as generic when its type contains a type
    parameter at any list depth (CastDeeplyNestedGenerics) *)
